@@ -397,5 +397,13 @@ func noteFor(cfg *lib.Cfg, o *lib.Obs, d lib.Delta) string {
 	if l := o.Leaves[d.Path]; l != nil {
 		return cfg.KeyNote(l.Elems)
 	}
+	if d.What == "order" {
+		// the list itself: the note of any leaf inside one of its entries
+		for _, l := range o.Leaves {
+			if strings.HasPrefix(l.Path, d.Path+"[") {
+				return cfg.KeyNote(l.Elems)
+			}
+		}
+	}
 	return ""
 }
